@@ -376,6 +376,11 @@ Definition seteq_b (a b : list bytes) : bool := forallb (mem_b b) a && forallb (
 Definition count_kind (dir : bool) (l : list node) : N :=
   N.of_nat (length (filter (fun k => Bool.eqb (n_dir k) dir) l)).
 
+(* what an HTML listing of directory d announces: directoryListing counts every entry of the
+   directory, then passes over the hidden ones *)
+Definition announced_counts (fs : fsys) (d : bytes) : N * N :=
+  (count_kind true (children fs d), count_kind false (children fs d)).
+
 Definition agree (s : site) (r : request) (o : obs) : bool :=
   let body := negb (q_meth r =? 1) in                     (* HEAD answers carry no body *)
   match handle s r with
@@ -410,20 +415,19 @@ Definition agree (s : site) (r : request) (o : obs) : bool :=
           then forallb (mem_b names) (o_names o) && (N.of_nat (length (o_names o)) =? lim)
           else seteq_b (o_names o) names) &&
          (* the numbers an HTML listing announces are counted BEFORE the IsHidden test *)
-         (let all := children (s_fs s) d in
-          match o_counts o with
-          | [] => true
-          | [nd; nf] => (nd =? count_kind true all) && (nf =? count_kind false all)
-          | _ => false
-          end)
-       else true)
+         match o_counts o with
+         | [] => true
+         | [nd; nf] => (nd =? fst (announced_counts (s_fs s) d)) && (nf =? snd (announced_counts (s_fs s) d))
+         | _ => false
+         end
+       else (o_kind o =? 0) && seteq_b (o_names o) [])
   | Archive ms =>
       let d := jail (q_path r) in
       (o_status o =? 200) && beq (o_loc o) [] && seteq_N (o_hids o) [] &&
       (if body then (o_kind o =? 2) &&
                     seteq_b (o_names o) (map (fun k => rel_name d (n_path k)) ms) &&
                     seteq_N (o_ids o) (map n_id (filter (fun k => negb (n_dir k)) ms))
-       else seteq_N (o_ids o) [])
+       else (o_kind o =? 0) && seteq_N (o_ids o) [] && seteq_b (o_names o) [])
   end.
 
 (* ---- the executable statement of the property, evaluated on the observation alone ---- *)
@@ -549,10 +553,11 @@ Definition origin_clause (base origin rootrel : bytes) (fs : fsys) (r : request)
     | None => true
     | Some cf =>
         negb (mem_N (o_ids o) (n_id cf)) && negb (mem_N (o_hids o) (n_id cf)) &&
-        forallb (fun nm => match fs_at fs (child_path c nm) with
-                           | Some n => negb (n_id n =? n_id cf)
-                           | None => true
-                           end) (o_names o)
+        ((o_kind o =? 0) ||
+         forallb (fun nm => match fs_at fs (child_path c nm) with
+                            | Some n => negb (n_id n =? n_id cf)
+                            | None => true
+                            end) (o_names o))
     end
   end.
 
